@@ -2,6 +2,7 @@ package main
 
 import (
 	"fmt"
+	"math"
 	"os"
 	"os/exec"
 	"sort"
@@ -142,25 +143,61 @@ func c20Churn(in *c20inst, s Step, idx int, pg *progress) *Viol {
 		}
 		return 0, false
 	}
+	// Swarm over operation kinds (B = stream + 1000 x mask; 0 = the uniform mix):
+	// 1 only ranged allocations, 2 no ranged allocations, 4 frees also hit identifiers
+	// that are not live or not in range, 8 ranged allocations with any arguments
+	// (swapped, beyond the bounds, negative), 16 ranged allocations dominate (60 %).
+	mask := s.B / 1000
+	onlyRanged, noRanged, wildFree, wildArgs, manyRanged := mask&1 != 0 && mask&2 == 0, mask&2 != 0, mask&4 != 0, mask&8 != 0, mask&16 != 0
+	pRanged := 12
+	if manyRanged {
+		pRanged = 60
+	}
+	longPhases := mask&32 != 0 // big allocators: phases long enough to fill and to empty them
+	phaseLen := int64(64)
+	if longPhases {
+		phaseLen = size/3 + 1
+	}
 	bias := 50 // percent allocations
 	for n := int64(0); n < s.A; n++ {
-		if n%64 == 0 {
+		if n%phaseLen == 0 {
 			bias = []int{15, 35, 50, 50, 65, 85}[r.Intn(6)]
+			if longPhases {
+				bias = []int{97, 97, 99, 3, 50, 90}[r.Intn(6)]
+			}
 		}
 		var st Step
 		x := r.Intn(100)
+		alloc := func() Step {
+			if noRanged || (!onlyRanged && !r.Chance(pRanged)) {
+				return Step{Inst: s.Inst, Op: "Allocate"}
+			}
+			lo := int64(r.U64() % uint64(size))
+			hi := lo + int64(r.U64()%uint64(size-lo))
+			if wildArgs && r.Chance(40) {
+				switch r.Intn(4) {
+				case 0:
+					lo, hi = hi, lo
+				case 1:
+					hi += size + int64(r.Intn(5))
+				case 2:
+					lo = -1 - int64(r.Intn(int(size)+2))
+				default:
+					lo, hi = lo+in.min, hi+in.min // as identifiers, not offsets
+				}
+			}
+			return Step{Inst: s.Inst, Op: "Allocate_inRange", A: lo, B: hi}
+		}
 		switch {
 		case x < bias:
-			st = Step{Inst: s.Inst, Op: "Allocate"}
-			if r.Chance(12) {
-				lo := int64(r.U64() % uint64(size))
-				hi := lo + int64(r.U64()%uint64(size-lo))
-				st = Step{Inst: s.Inst, Op: "Allocate_inRange", A: lo, B: hi}
-			}
+			st = alloc()
 		default:
 			id, ok := pickLive()
+			if wildFree && r.Chance(20) {
+				id, ok = in.min-2+int64(r.U64()%uint64(size+4)), true
+			}
 			if !ok {
-				st = Step{Inst: s.Inst, Op: "Allocate"}
+				st = alloc()
 			} else {
 				st = Step{Inst: s.Inst, Op: "FreeID", A: id}
 			}
@@ -184,9 +221,11 @@ func liveIDs(in *c20inst) []int64 {
 
 func freeIDs(in *c20inst) []int64 {
 	var out []int64
-	for id := in.min; id <= in.max; id++ {
-		if !in.live[id] {
-			out = append(out, id)
+	size := in.max - in.min + 1
+	// (by offset: max may be the largest int64; at most 64 for the message)
+	for k := int64(0); k < size && len(out) < 64; k++ {
+		if !in.live[in.min+k] {
+			out = append(out, in.min+k)
 		}
 	}
 	return out
@@ -265,6 +304,10 @@ func newGeneratorOrNil(min, max int64) (g *uePolicyContainer.IDGenerator) {
 // every c20DeepEvery-th history is a deep-churn history
 const c20DeepEvery = 400
 
+// every c20BigEvery-th history is a big-allocator history (a deep-churn history on one
+// allocator of 1 000 - 4 160 identifiers)
+const c20BigEvery = 1500
+
 var c20mins = []int64{0, 1, 2, 5, 100, 65530, -3, -1, 0, 1, 1<<31 - 2, 1<<32 + 5, 1 << 40, -(1 << 33)}
 
 func genC20(seed, index uint64, maxSize int) History {
@@ -273,6 +316,9 @@ func genC20(seed, index uint64, maxSize int) History {
 	ninst := 1
 	if r.Chance(15) {
 		ninst = 2 + r.Intn(2)
+	}
+	if index%c20BigEvery == 13 {
+		ninst = 1
 	}
 	type gi struct {
 		min, max, size int64
@@ -292,6 +338,19 @@ func genC20(seed, index uint64, maxSize int) History {
 			}
 		}
 		min := c20mins[r.Intn(len(c20mins))]
+		switch x := r.Intn(100); {
+		case x < 5:
+			min = math.MaxInt64 - size + 1 // the top identifier is the largest int64 there is
+		case x < 7:
+			min = math.MinInt64
+		}
+		if index%c20BigEvery == 13 {
+			// big class: sizes next to 2^10, 2^11 and 2^12, one allocator, phases long enough
+			// to fill it (the 2^16 identifiers of a real UPSC space are not churned: the
+			// library's scan costs O(size) per allocation when the allocator is nearly full)
+			size = []int64{1000, 1024, 2048, 4032, 4095, 4096, 4097, 4160}[r.Intn(8)]
+			min = []int64{0, 0, 1, 100, -3}[r.Intn(5)]
+		}
 		gis[i] = &gi{min: min, max: min + size - 1, size: size}
 		h.Instances = append(h.Instances, InstCfg{Min: min, Max: min + size - 1})
 	}
@@ -309,6 +368,10 @@ func genC20(seed, index uint64, maxSize int) History {
 		}
 	}
 	deep := index%c20DeepEvery == 11
+	big := index%c20BigEvery == 13
+	if big {
+		deep = true
+	}
 	if deep {
 		// deep-churn class: a short explicit prefix, then tens of thousands of checked
 		// operations (past 2^12 and 2^16 successful frees on one allocator), then a short
@@ -325,7 +388,15 @@ func genC20(seed, index uint64, maxSize int) History {
 		if len(h.Steps) == deepAt {
 			cnt := []int64{3000, 9000, 20000, 40000, 140000}[r.Intn(5)]
 			cnt += int64(r.Intn(int(cnt / 2)))
-			h.Steps = append(h.Steps, Step{Inst: r.Intn(ninst), Op: "Churn", A: cnt, B: int64(r.Intn(1000))})
+			stream := int64(r.Intn(1000))
+			if r.Chance(50) {
+				stream += 1000 * int64(1+r.Intn(31)) // swarm: see c20Churn
+			}
+			if big {
+				cnt = 2*gis[0].size + int64(r.Intn(int(3*gis[0].size)))
+				stream = stream%1000 + 1000*(32+int64(r.Intn(2))*int64(r.Intn(32)))
+			}
+			h.Steps = append(h.Steps, Step{Inst: r.Intn(ninst), Op: "Churn", A: cnt, B: stream})
 			continue
 		}
 		k := r.Intn(ninst)
@@ -521,6 +592,12 @@ var c20Engine = &engine{
 		for _, st := range h.Steps {
 			if st.Op == "Churn" {
 				class = append(class, "deep_churn")
+				if (st.B/1000)&32 != 0 {
+					class = append(class, "big_allocator_1000_to_4160_ids")
+				}
+				if st.B >= 1000 {
+					class = append(class, "deep_churn_swarm_of_kinds")
+				}
 				break
 			}
 		}
@@ -594,7 +671,7 @@ func checkC20(tier string, seed uint64) int {
 		Coverage: map[string]interface{}{
 			"evaluations":         res.histories,
 			"distinct_nontrivial": res.distinct,
-			"rule": fmt.Sprintf("one seeded history per index: 1-3 interleaved allocators with min in %v and 1..%d identifiers (10 %% of them with sizes next to powers of two up to 257), up to 6*size steps of Allocate / Allocate_inRange / FreeID in fill, free and mixed phases (every 50th history is a churn history of 600-4600 steps; every 400th a deep-churn history: one Churn step that the runner expands into 3 000-210 000 checked operations drawn from the model's live set, so that per-allocator totals pass 2^12 and 2^16 frees), "+
+			"rule": fmt.Sprintf("one seeded history per index: 1-3 interleaved allocators with min in %v and 1..%d identifiers (10 %% of them with sizes next to powers of two up to 257), up to 6*size steps of Allocate / Allocate_inRange / FreeID in fill, free and mixed phases (every 50th history is a churn history of 600-4600 steps; every 400th a deep-churn history: one Churn step that the runner expands into 3 000-210 000 checked operations drawn from the model's live set, so that per-allocator totals pass 2^12 and 2^16 frees; half of them with a swarm mask: only / no / mostly ranged allocations, frees of identifiers that are not live, ranged allocations with arbitrary arguments), "+
 				"then a drain phase (Allocate until failure); non-trivial = the history reaches exhaustion, re-allocates after a free, or allocates more than size identifiers in total (scan offset wraps); "+
 				"distinct = distinct FNV-64 hashes of (instances, steps) among those", c20mins, maxSize),
 			"samples":              samples,
